@@ -930,6 +930,10 @@ class Ctx:
                         raise Unsupported('field of uninitialised _%d in %s' % (pl.local, f.name))
                     v = Struct('(partial)', [])
                     c.v = v
+                ty_ = pr[2] if len(pr) > 2 and pr[2] else ''
+                if isinstance(v, (Struct, Enum)) and ('Unique<' in ty_ or 'NonNull<' in ty_) and getattr(v, 'name', '') not in ('Box', 'Unique', 'NonNull', '(partial)'):
+                    # Box<T> internals on a value that already stands for its content
+                    continue
                 if isinstance(v, (Struct, Enum)):
                     fl = v.fields
                     while len(fl) <= idx:
